@@ -1,6 +1,8 @@
 package main
 
 import (
+	"strconv"
+	"time"
 	"bufio"
 	"bytes"
 	"encoding/json"
@@ -101,7 +103,33 @@ type runner struct {
 
 func newRunner(e Engine, name string) *runner { return &runner{eng: e, name: name} }
 
-func safeRun(e Engine, raw json.RawMessage) (res json.RawMessage) {
+// caseTimeout bounds one case: real code that no longer terminates on an input must become an
+// observation ("hang") with that input, not a check that never ends.
+var caseTimeout = func() time.Duration {
+	if v, err := strconv.Atoi(os.Getenv("VERIF_CASE_TIMEOUT")); err == nil && v > 0 {
+		return time.Duration(v) * time.Second
+	}
+	return 120 * time.Second
+}()
+
+// hung is set when a case timed out: the runaway goroutine cannot be stopped, so the process
+// reports the case and then exits (remaining cases of this shard are not run).
+var hung = false
+
+func safeRun(e Engine, raw json.RawMessage) json.RawMessage {
+	done := make(chan json.RawMessage, 1)
+	go func() { done <- safeRun1(e, raw) }()
+	select {
+	case r := <-done:
+		return r
+	case <-time.After(caseTimeout):
+		hung = true
+		b, _ := json.Marshal(map[string]interface{}{"hang": true, "seconds": int(caseTimeout.Seconds())})
+		return b
+	}
+}
+
+func safeRun1(e Engine, raw json.RawMessage) (res json.RawMessage) {
 	defer func() {
 		if r := recover(); r != nil {
 			b, _ := json.Marshal(map[string]interface{}{"panic": fmt.Sprint(r)})
@@ -143,6 +171,11 @@ func (r *runner) run(raw json.RawMessage) json.RawMessage {
 	fmt.Fprintf(r.in, "%s\n", raw)
 	line, err := r.out.ReadBytes('\n')
 	if err == nil {
+		if bytes.Contains(line, []byte(`"hang":true`)) { // the worker reported a case that never returned and exited
+			r.in.Close()
+			_ = r.cmd.Wait()
+			r.cmd = nil
+		}
 		return json.RawMessage(bytes.TrimSpace(line))
 	}
 	// the worker died: that is the observation
@@ -184,6 +217,9 @@ func workerLoop(e Engine) {
 		out.Write(res)
 		out.WriteByte('\n')
 		out.Flush()
+		if hung {
+			os.Exit(0)
+		}
 	}
 }
 
